@@ -49,7 +49,7 @@ package mobius
 //@   requires bf != nil && !isnil(bf.banList)
 //@   ensures has(bf.banList, ip) && get(bf.banList, ip) == until
 //@   ensures forall(k, -1000000000000, 1000000000000, k != ip ==> has(bf.banList, k) == has_old(bf.banList, k) && get(bf.banList, k) == get_old(bf.banList, k))
-//@   ensures err == nil ==> callres("os.WriteFile") == nil
+//@   ensures err == nil ==> callres("os.WriteFile") == nil && callres("os.Rename") == nil
 //@   before call os.WriteFile assert same(arg1, callres("gopkg.in/yaml.v3.Marshal", 0))
 //@   before call os.WriteFile assert locked(bf, "Mutex")
 //@   before call os.Rename assert locked(bf, "Mutex")
